@@ -202,6 +202,8 @@ def run_case(case):
         classes.add("left the specified domain")
     if not isinstance(case["args"], (list, tuple)) and case["args"] not in ("omit", None):
         classes.add("scalar args")
+        if not case["args"]:
+            classes.add("falsy scalar argument (0, '', False)")
     at_expiry = stats.get("op_at_expiry_before_fire", 0) + stats.get("op_at_expiry_after_fire", 0)
     nt = at_expiry > 0 and (stats.get("op_from_callback_restart", 0) > 0 or stats.get("two_ops_one_instant", 0) > 0)
     return {"nontrivial": bool(nt), "classes": sorted(classes)}
@@ -227,7 +229,7 @@ def _strategy(tier, taus, delays):
         return st.fixed_dictionaries({
             "timeout": st.just(timeout),
             "auto": st.booleans(),
-            "args": st.sampled_from(["omit", None, 7, "x", [1], [1, "b"], [], [[2]]]),
+            "args": st.sampled_from(["omit", None, 7, "x", [1], [1, "b"], [], [[2]], 0, "", 0.0, False, [0], [None]]),
             "kwargs": st.sampled_from([None, None, {"k": 1}]),
             "t0": delay,
             "order": st.integers(0, 1),
@@ -251,7 +253,7 @@ PROP = Property(
           "next firing. Non-trivial = a call at an expiry instant AND (a restart from the callback OR two calls at one instant)."),
     facets=[Facet("scenarios", strategy, run_case, quick=3000, thorough=20000,
                   essential=["op_at_expiry_before_fire", "op_at_expiry_after_fire", "op_from_callback_restart",
-                             "op_from_callback_stop", "two_ops_one_instant", "scalar args", "restart_pending",
+                             "op_from_callback_stop", "two_ops_one_instant", "scalar args", "falsy scalar argument (0, '', False)", "restart_pending",
                              "restart_after_stop"])],
     assumptions=["same-instant order of a call and an expiry is taken from the harness log (DESIGN 3.5 rule 1)"],
 )
